@@ -56,11 +56,11 @@ pub fn plan(prop: &str, tier: &str, ctx: &Ctx) -> (u64, u64, String) {
         "C01" => {
             let l = if thorough { 5 } else { 4 };
             let tl = if thorough { 4 } else { 3 };
-            let ex = (crate::gen::w5_count(l) + crate::gen::count_token_strings(tl)) * c01::W5_ENVS.len() as u64 + crate::gen::slide_count() * 5 + crate::gen::repeat_count() * 2 + crate::gen::escape_pair_count() * 3 + c01::mega_count() + crate::gen::count_context_cases() * 2 + crate::gen::tag_split_count() * 5 + c01::giant_count() + crate::gen::dedent_count() * 2;
+            let ex = (crate::gen::w5_count(l) + crate::gen::count_token_strings(tl)) * c01::W5_ENVS.len() as u64 + crate::gen::slide_count() * 5 + crate::gen::repeat_count() * 2 + crate::gen::escape_pair_count() * 3 + c01::mega_count() + crate::gen::count_context_cases() * 2 + crate::gen::tag_split_count() * 5 + c01::giant_count() + crate::gen::dedent_count() * 2 + crate::gen::special_key_count() * 5;
             (
                 ex + if thorough { 150_000_000 } else { 4_000_000 },
                 ex,
-                format!("every string of length <= {l} over the 14-symbol alphabet {:?} and every sequence of 1..{tl} tokens over the 36-token YAML alphabet {:?}, each x {} environments; plus {} sliding cases (a 2/3/4-byte character, literal or %-escaped, behind 0..40 ASCII characters in 14 constructs) x iterate and the four loaders; plus every ordered token pair repeated 255/256/257/1000 times x 2 clients; plus every ordered pair of 26 edge-value escapes in a double-quoted scalar x 3 clients; plus every regular input family at 700 kB and 8 count documents (66 000 anchors / aliases / documents / keys / tags / entries) x iterate and one loader; plus every (context, follower, suffix) triple of the C10 enumeration x 2 clients; plus every split of a core-schema tag URI between %TAG prefix and suffix (11 types x 7 node texts) x iterate and the four loaders (eager and deferred); plus 16 streams of 2^31..5*2^30 characters in run-length form (giant comments after every kind of token) x 2 clients; plus 1 056 dedent cases (a block nest of 1..17 levels closed by one line that starts with every kind of node or key) x 2 clients", crate::gen::W5_ALPHABET, crate::gen::TOKENS, c01::W5_ENVS.len(), crate::gen::slide_count()),
+                format!("every string of length <= {l} over the 14-symbol alphabet {:?} and every sequence of 1..{tl} tokens over the 36-token YAML alphabet {:?}, each x {} environments; plus {} sliding cases (a 2/3/4-byte character, literal or %-escaped, behind 0..40 ASCII characters in 14 constructs) x iterate and the four loaders; plus every ordered token pair repeated 255/256/257/1000 times x 2 clients; plus every ordered pair of 26 edge-value escapes in a double-quoted scalar x 3 clients; plus every regular input family at 700 kB and 8 count documents (66 000 anchors / aliases / documents / keys / tags / entries) x iterate and one loader; plus every (context, follower, suffix) triple of the C10 enumeration x 2 clients; plus every split of a core-schema tag URI between %TAG prefix and suffix (11 types x 7 node texts) x iterate and the four loaders (eager and deferred); plus 16 streams of 2^31..5*2^30 characters in run-length form (giant comments after every kind of token) x 2 clients; plus 1 056 dedent cases (a block nest of 1..17 levels closed by one line that starts with every kind of node or key) x 2 clients; plus 1 056 documents with special scalars (<<, =, ~, booleans, numbers in every base, timestamps) as keys over aliases and small collections as values x iterate and the four loaders", crate::gen::W5_ALPHABET, crate::gen::TOKENS, c01::W5_ENVS.len(), crate::gen::slide_count()),
             )
         }
         "C17" => {
